@@ -1597,7 +1597,8 @@ class BaseBosonicState(BaseState):
         elif isinstance(modes, int):  # pragma: no cover
             modes = [modes]
 
-        ind = np.sort(np.concatenate([2 * np.array(modes), 2 * np.array(modes) + 1]))
+        # (x, p) of every requested mode, in the order the modes were requested
+        ind = np.array([[2 * m, 2 * m + 1] for m in modes], dtype=int).flatten()
         avg_mu = np.real_if_close(np.sum(self._weights[:, None] * self._mus[:, ind], axis=0))
         if avg_mu.imag.any():
             raise ValueError("State mean is complex valued.")
